@@ -264,3 +264,81 @@ def refusal_side_conditions(cfg, raise_node, is_own, text, context=()):
         elif not lab and ("not:" + g) not in context and not branch_always_raises(cfg.stmt[h]):
             out.append((cfg.stmt[h], g, "skipped when"))
     return out
+
+
+NOCOPY_FUNCS = {"np.asarray", "numpy.asarray", "np.asanyarray", "numpy.asanyarray", "torch.as_tensor", "torch.from_numpy", "np.ravel", "numpy.ravel", "np.atleast_1d", "np.atleast_2d",
+                "np.squeeze", "np.transpose"}
+NOCOPY_METHODS = {"reshape", "ravel", "view", "squeeze", "transpose", "swapaxes", "numpy", "to_numpy", "detach", "unsqueeze", "expand", "view_as", "t", "flatten_view"}
+NOCOPY_ATTRS = {"values", "T", "data", "real"}
+
+
+def inplace_on_argument_views(ctx, funcs=None):
+    """[(func, node, description)]: a local obtained from a *parameter* through conversions that do not (always) copy - np.asarray,
+    torch.as_tensor, .reshape(), .ravel(), .values, .to_numpy(), .numpy(), .T ... - is modified in place (`x -= a`, `x[i] = v`, `x.f_()`,
+    `out=x`): when the caller passed an array of the right type the caller's own data is rewritten."""
+    import ast as _ast
+    from ..astq import U as _U
+    out, holders = [], []
+    for f in (funcs if funcs is not None else ctx.ix.iter_funcs()):
+        a = f.node.args
+        params = {p.arg for p in a.posonlyargs + a.args + a.kwonlyargs} - {"self", "cls"}
+        if not params:
+            continue
+        tainted = {}
+
+        def view_of(e):
+            """name of the parameter `e` may be a view of (None otherwise); a bare parameter is not a view by itself"""
+            if isinstance(e, _ast.Name):
+                return tainted.get(e.id)
+            if isinstance(e, _ast.Call):
+                fn = _U(e.func)
+                if fn in NOCOPY_FUNCS and e.args:
+                    src = e.args[0]
+                    if isinstance(src, _ast.Name) and src.id in params and src.id not in tainted:
+                        return src.id
+                    return view_of(src)
+                if fn in ("np.array", "numpy.array") and e.args and any(k.arg == "copy" and _U(k.value) == "False" for k in e.keywords):
+                    src = e.args[0]
+                    return src.id if isinstance(src, _ast.Name) and src.id in params else view_of(src)
+                if isinstance(e.func, _ast.Attribute) and e.func.attr in NOCOPY_METHODS:
+                    return view_of(e.func.value)
+            if isinstance(e, _ast.Attribute) and e.attr in NOCOPY_ATTRS:
+                b = e.value
+                if isinstance(b, _ast.Name) and b.id in params and b.id not in tainted:
+                    return b.id
+                return view_of(b)
+            if isinstance(e, _ast.Subscript):
+                return view_of(e.value)
+            return None
+        for _ in range(3):
+            for st in _ast.walk(f.node):
+                if isinstance(st, _ast.Assign) and len(st.targets) == 1 and isinstance(st.targets[0], _ast.Name):
+                    src = view_of(st.value)
+                    if src is not None:
+                        tainted[st.targets[0].id] = src
+        if tainted:
+            holders.append((f, dict(tainted)))
+        for n in _ast.walk(f.node):
+            if isinstance(n, _ast.AugAssign):
+                tg = n.target
+                base = tg.value if isinstance(tg, _ast.Subscript) else tg
+                src = view_of(base)
+                if src is not None:
+                    out.append((f, n, f"`{_U(n)[:60]}` modifies in place a (possible) view of the argument `{src}`"))
+            elif isinstance(n, _ast.Assign):
+                for tg in n.targets:
+                    if isinstance(tg, _ast.Subscript):
+                        src = view_of(tg.value)
+                        if src is not None:
+                            out.append((f, n, f"`{_U(n)[:60]}` writes into a (possible) view of the argument `{src}`"))
+            elif isinstance(n, _ast.Call):
+                if isinstance(n.func, _ast.Attribute) and n.func.attr.endswith("_") and not n.func.attr.endswith("__") and len(n.func.attr) > 1 and n.func.attr not in INPLACE_FREE:
+                    src = view_of(n.func.value)
+                    if src is not None:
+                        out.append((f, n, f"`{_U(n)[:60]}` calls an in-place method on a (possible) view of the argument `{src}`"))
+                for k in n.keywords:
+                    if k.arg == "out":
+                        src = view_of(k.value)
+                        if src is not None:
+                            out.append((f, n, f"`{_U(n)[:60]}` writes its result into a (possible) view of the argument `{src}`"))
+    return out, holders
